@@ -1,0 +1,66 @@
+//go:build verif
+
+package ecs
+
+// Contracts for the table selection of registered filters and batches (C05, C06, C03):
+// storage.getCacheTables / getBatchTables and archetype.GetTables.
+//
+// The shape predicates describe the part of the archetype/table structure these functions
+// read: every archetype lists tables that exist and belong to it, the component map of an
+// archetype knows a column for each component of its mask, and a table has a column entry for
+// every component of its archetype. They are preconditions here (assumed at this boundary: the
+// functions that build archetypes and tables are not under contract yet).
+
+//@ pred archShape(a *archetype) :=
+//@      a.archetypeData != nil && len(a.componentsMap) == maskTotalBits
+//@   && len(a.relationTables) == len(a.isRelation)
+//@   && tidsInv(&a.tables)
+//@   && (a.numRelations == 0 ==> len(a.tables.tables) >= 1)
+//@   && (forall c uint8 :: mhas(a.mask, c) ==> 0 <= a.componentsMap[c] && int(a.componentsMap[c]) < len(a.relationTables))
+//@   && (forall i int, e entityID :: 0 <= i && i < len(a.relationTables) && __has(a.relationTables[i], e) ==> a.relationTables[i][e] != nil)
+
+// every table listed by archetype number i of the storage exists and belongs to it
+//@ pred archOwns(s *storage, i int) :=
+//@      (forall p int :: 0 <= p && p < len(s.archetypes[i].tables.tables) ==>
+//@         int(s.archetypes[i].tables.tables[p]) < len(s.tables) && int(s.tables[s.archetypes[i].tables.tables[p]].archetype) == i)
+//@   && (forall c int, e entityID, p int :: 0 <= c && c < len(s.archetypes[i].relationTables) && __has(s.archetypes[i].relationTables[c], e)
+//@         && 0 <= p && p < len(s.archetypes[i].relationTables[c][e].tables) ==>
+//@         int(s.archetypes[i].relationTables[c][e].tables[p]) < len(s.tables) && int(s.tables[s.archetypes[i].relationTables[c][e].tables[p]].archetype) == i)
+
+//@ pred tableShape(s *storage, t *table) :=
+//@      len(t.components) == maskTotalBits && int(t.archetype) < len(s.archetypes)
+//@   && (forall c uint8 :: mhas(s.archetypes[t.archetype].mask, c) ==> t.components[c] != nil)
+
+//@ pred storageShape(s *storage) :=
+//@      uint64(len(s.tables)) < 1<<32 && uint64(len(s.archetypes)) < 1<<32
+//@   && (forall i int :: 0 <= i && i < len(s.archetypes) ==> archShape(&s.archetypes[i]) && archOwns(s, i))
+//@   && (forall t int :: 0 <= t && t < len(s.tables) ==> tableShape(s, &s.tables[t]))
+
+// the relation components named by the relations of a filter are required by the filter
+//@ spec func relsInFilter(f *filter, relations []relationID) bool :=
+//@   forall k int :: 0 <= k && k < len(relations) ==> mhas(f.mask, relations[k].component.id)
+
+//@ spec func inSlice(xs []tableID, x tableID) bool := exists k int :: 0 <= k && k < len(xs) && xs[k] == x
+
+//@ func (*archetype).GetTables
+//@   serves C03 C05 C06
+//@   inline
+//@   requires len(a.componentsMap) == maskTotalBits
+//@   requires a.numRelations > 0 && len(relations) > 0 ==> 0 <= a.componentsMap[relations[0].component.id] && int(a.componentsMap[relations[0].component.id]) < len(a.relationTables)
+//@   requires forall i int, e entityID :: 0 <= i && i < len(a.relationTables) && __has(a.relationTables[i], e) ==> a.relationTables[i][e] != nil
+//@   modifies nothing
+
+//@ func (*storage).getCacheTables
+//@   serves C05 C03
+//@   requires storageShape(s) && filter != nil && relsInFilter(filter, relations)
+//@   loop 1 invariant norel: forall a int :: 0 <= a && a < __idx && filterMatches(*filter, s.archetypes[a].mask) && s.archetypes[a].numRelations == 0 ==> inSlice(tables, s.archetypes[a].tables.tables[0])
+//@   loop 1 invariant rel: forall a int, p int :: 0 <= a && a < __idx && filterMatches(*filter, s.archetypes[a].mask) && s.archetypes[a].numRelations > 0 && 0 <= p && p < len(s.archetypes[a].GetTables(relations)) && tableMatchesSpec(&s.tables[s.archetypes[a].GetTables(relations)[p]], relations) ==> inSlice(tables, s.archetypes[a].GetTables(relations)[p])
+//@   loop 1 invariant sound: forall k int :: 0 <= k && k < len(tables) ==> int(tables[k]) < len(s.tables) && filterMatches(*filter, s.archetypes[s.tables[tables[k]].archetype].mask) && tableMatchesSpec(&s.tables[tables[k]], relations)
+//@   loop 2 invariant norel: forall a int :: 0 <= a && a < i && filterMatches(*filter, s.archetypes[a].mask) && s.archetypes[a].numRelations == 0 ==> inSlice(tables, s.archetypes[a].tables.tables[0])
+//@   loop 2 invariant rel: forall a int, p int :: 0 <= a && a < i && filterMatches(*filter, s.archetypes[a].mask) && s.archetypes[a].numRelations > 0 && 0 <= p && p < len(s.archetypes[a].GetTables(relations)) && tableMatchesSpec(&s.tables[s.archetypes[a].GetTables(relations)[p]], relations) ==> inSlice(tables, s.archetypes[a].GetTables(relations)[p])
+//@   loop 2 invariant sound: forall k int :: 0 <= k && k < len(tables) ==> int(tables[k]) < len(s.tables) && filterMatches(*filter, s.archetypes[s.tables[tables[k]].archetype].mask) && tableMatchesSpec(&s.tables[tables[k]], relations)
+//@   loop 2 invariant cur: forall p int :: 0 <= p && p < __idx && tableMatchesSpec(&s.tables[tableIDs[p]], relations) ==> inSlice(tables, tableIDs[p])
+//@   ensures  norel: forall a int :: 0 <= a && a < len(s.archetypes) && filterMatches(*filter, s.archetypes[a].mask) && s.archetypes[a].numRelations == 0 ==> inSlice(result, s.archetypes[a].tables.tables[0])
+//@   ensures  rel: forall a int, p int :: 0 <= a && a < len(s.archetypes) && filterMatches(*filter, s.archetypes[a].mask) && s.archetypes[a].numRelations > 0 && 0 <= p && p < len(s.archetypes[a].GetTables(relations)) && tableMatchesSpec(&s.tables[s.archetypes[a].GetTables(relations)[p]], relations) ==> inSlice(result, s.archetypes[a].GetTables(relations)[p])
+//@   ensures  sound: forall k int :: 0 <= k && k < len(result) ==> int(result[k]) < len(s.tables) && filterMatches(*filter, s.archetypes[s.tables[result[k]].archetype].mask) && tableMatchesSpec(&s.tables[result[k]], relations)
+//@   modifies nothing
